@@ -161,3 +161,12 @@ Definition routedb (i : nat) (f : field) (secs : list section) (reps : list repo
   | Some e => Nat.eqb (occurrences i secs) 1 && Nat.eqb (occurrences_under (labels_of e) i secs) 1
   | None => false
   end || existsb (fun r => Nat.eqb (rp_field r) i) reps.
+
+(* ---- order of the parameter rows ------------------------------------------------------------------------ *)
+Inductive subseq {X} : list X -> list X -> Prop :=
+| subseq_nil : forall l, subseq [] l
+| subseq_keep : forall x a b, subseq a b -> subseq (x :: a) (x :: b)
+| subseq_skip : forall x a b, subseq a b -> subseq a (x :: b).
+
+Definition key_texts {V} (d : list (pname * V)) : list text := map (fun e => pn_text (fst e)) d.
+Definition sig_names (E : env) : list text := map (fun p => pn_text (fst p)) (e_sig E).
